@@ -245,6 +245,10 @@ class SVRPEnv(RL4COEnvBase):
             if each[0] > batch:
                 start = tech = 0
                 batch = each[0]
+            # depot visits beyond the last technician are padding: no customer may follow them
+            assert (
+                tech < td["techs"].size(-2) or each[1] == start
+            ), "More routes than technicians"
             assert (
                 skills_ordered[batch, start : each[1]]
                 <= td["techs"][batch, min(tech, td["techs"].size(-2) - 1)]
